@@ -275,7 +275,164 @@ pub fn evidence_json(check: &Check, tier: Tier, seed: u64, st: &Stats, wall: f64
     e
 }
 
+pub fn workers_from_env() -> usize {
+    std::env::var("VERIF_WORKERS").ok().and_then(|s| s.parse().ok()).unwrap_or_else(|| {
+        std::thread::available_parallelism().map(|n| n.get()).unwrap_or(8).min(16)
+    })
+}
+
+fn run_custom(c: crate::custom::Custom, tier: Tier) -> i32 {
+    let seed = seed_from_env();
+    println!("VERIF_SEED={} property={} tier={:?}", seed, c.prop, tier);
+    let start = Instant::now();
+    let mut out = (c.run)(tier, seed, workers_from_env());
+    // regression: the replays of this property's repaired defects (a fixed entry suppresses nothing)
+    let mut regress = 0u64;
+    if let Ok(rd) = std::fs::read_dir("/verif/findings") {
+        let mut files: Vec<_> = rd.filter_map(|e| e.ok()).map(|e| e.path()).collect();
+        files.sort();
+        for f in files {
+            let name = f.file_name().map(|x| x.to_string_lossy().to_string()).unwrap_or_default();
+            if !name.starts_with(c.prop) || !name.ends_with(".replay") {
+                continue;
+            }
+            let Ok(t) = std::fs::read_to_string(&f) else { continue };
+            match (c.replay)(&t) {
+                Ok(vs) => {
+                    regress += 1;
+                    out.evaluations += 1;
+                    for v in vs {
+                        out.viol(v);
+                    }
+                }
+                Err(e) => {
+                    eprintln!("HARNESS-ERROR: cannot parse {}: {}", f.display(), e);
+                    return 2;
+                }
+            }
+        }
+    }
+    out.extra.push(("regression_replays_of_repaired_defects".into(), J::i(regress)));
+    let wall = start.elapsed().as_secs_f64();
+    if !out.harness_errors.is_empty() {
+        for h in out.harness_errors.iter().take(5) {
+            eprintln!("HARNESS-ERROR: {}", h);
+        }
+        return 2;
+    }
+    let known = load_known("/verif/known_findings.jsonl");
+    // one report per signature
+    let mut seen: std::collections::BTreeMap<String, &crate::custom::CViol> = Default::default();
+    for v in &out.violations {
+        seen.entry(v.signature.clone()).or_insert(v);
+    }
+    let mut reported: Vec<Reported> = vec![];
+    for (sig, v) in seen.iter().take(12) {
+        // the replay must reproduce in this process before it is reported
+        match (c.replay)(&v.replay) {
+            Ok(vs) if vs.iter().any(|x| x.signature == *sig) => {}
+            Ok(_) => {
+                eprintln!("HARNESS-ERROR: replay of {} does not reproduce", sig);
+                return 2;
+            }
+            Err(e) => {
+                eprintln!("HARNESS-ERROR: replay of {} cannot be parsed: {}", sig, e);
+                return 2;
+            }
+        }
+        let h = crate::prng::fnv(sig.as_bytes());
+        let path = format!("/verif/replays/{}-{:016x}.replay", c.prop, h);
+        let _ = std::fs::create_dir_all("/verif/replays");
+        let text = format!("# property {}\n# signature {}\n# violation {}\n{}", c.prop, sig, v.detail.replace('\n', " "), v.replay);
+        let _ = std::fs::write(&path, text);
+        let is_known = known.iter().any(|k| k.property == c.prop && k.status == "known" && k.signature == *sig);
+        reported.push(Reported { signature: sig.clone(), known: is_known, replay_path: path, detail: v.detail.clone() });
+    }
+    let mut cov = J::obj();
+    cov.set("evaluations", J::i(out.evaluations));
+    cov.set("distinct_nontrivial", J::i(out.distinct_nontrivial));
+    cov.set("rule", J::s(c.rule));
+    cov.set("samples", J::Arr(out.samples.iter().map(|s| J::s(s.clone())).collect()));
+    cov.set("exhaustive", J::Bool(out.exhaustive));
+    cov.set("exhaustive_note", J::s(out.exhaustive_note.clone()));
+    cov.set("runs_per_hour", J::i(if wall > 0.0 { (out.evaluations as f64 / wall * 3600.0) as u64 } else { 0 }));
+    cov.set("seeds_per_hour", J::i(if wall > 0.0 { (out.evaluations as f64 / wall * 3600.0) as u64 } else { 0 }));
+    for (k, v) in &out.extra {
+        cov.set(k, v.clone());
+    }
+    cov.set("components_real", J::strs(c.real.iter().copied()));
+    cov.set("components_stub", J::strs(c.stub.iter().copied()));
+    cov.set("known_findings_reobserved", J::strs(reported.iter().filter(|r| r.known).map(|r| r.signature.clone())));
+    cov.set("violations_reported", J::strs(reported.iter().filter(|r| !r.known).map(|r| format!("{} replay={}", r.signature, r.replay_path))));
+    let mut e = J::obj();
+    e.set("property_id", J::s(c.prop));
+    e.set("tier", J::s(match tier {
+        Tier::Quick => "quick",
+        Tier::Thorough => "thorough",
+    }));
+    e.set("seed", J::i(seed));
+    e.set("level", J::s(c.level));
+    e.set("coverage", cov);
+    e.set("assumptions", J::strs(c.assumptions.iter().copied()));
+    e.set("wall_s", J::Num(wall));
+    e.set("violations", J::i(reported.iter().filter(|r| !r.known).count() as u64));
+    let _ = std::fs::create_dir_all("/verif/evidence");
+    std::fs::write(format!("/verif/evidence/{}.json", c.prop), e.render()).expect("write evidence");
+    println!("{}: {} evaluations, {} distinct non-trivial, {} raw violations, {:.1}s wall", c.prop, out.evaluations, out.distinct_nontrivial, out.violations.len(), wall);
+    let mut code = 0;
+    for r in &reported {
+        if r.known {
+            println!("KNOWN-FINDING: property={} {} :: {}", c.prop, r.signature, r.detail);
+        } else {
+            println!("VIOLATION property={} replay={}", c.prop, r.replay_path);
+            println!("  signature {}", r.signature);
+            println!("  {}", r.detail);
+            code = 1;
+        }
+    }
+    let _ = std::fs::remove_dir_all(format!("/dev/shm/cfdp-verif/{}", std::process::id()));
+    code
+}
+
+fn replay_custom(c: crate::custom::Custom, path: &str) -> i32 {
+    let text = match std::fs::read_to_string(path) {
+        Ok(t) => t,
+        Err(e) => {
+            eprintln!("cannot read {path}: {e}");
+            return 2;
+        }
+    };
+    let vs = match (c.replay)(&text) {
+        Ok(v) => v,
+        Err(e) => {
+            eprintln!("cannot parse {path}: {e}");
+            return 2;
+        }
+    };
+    let known = load_known("/verif/known_findings.jsonl");
+    let mut code = 0;
+    for v in &vs {
+        let is_known = known.iter().any(|k| k.property == c.prop && k.status == "known" && k.signature == v.signature);
+        if is_known {
+            println!("KNOWN-FINDING: property={} {} :: {}", c.prop, v.signature, v.detail);
+        } else {
+            println!("VIOLATION property={} replay={}", c.prop, path);
+            println!("  signature {}", v.signature);
+            println!("  {}", v.detail);
+            code = 1;
+        }
+    }
+    if vs.is_empty() {
+        println!("no violation of {} in this replay", c.prop);
+    }
+    let _ = std::fs::remove_dir_all(format!("/dev/shm/cfdp-verif/{}", std::process::id()));
+    code
+}
+
 pub fn cmd_run(prop: &str, tier: Tier) -> i32 {
+    if let Some(c) = crate::custom::registry(prop) {
+        return run_custom(c, tier);
+    }
     let Some(check) = checks::registry(prop) else {
         eprintln!("unknown or unclaimed property {prop}");
         return 2;
@@ -304,6 +461,9 @@ pub fn cmd_run(prop: &str, tier: Tier) -> i32 {
         for f in files {
             if f.extension().map(|x| x == "replay").unwrap_or(false) {
                 if let Ok(t) = std::fs::read_to_string(&f) {
+                    if !t.contains("# cfdp-verif replay v1") {
+                        continue; // a wire / io / udp case, re-run by its own check
+                    }
                     match Scenario::from_text(&t) {
                         Ok(sc) if (check.admissible)(&sc) => regress.push(sc),
                         Ok(_) => {}
@@ -388,6 +548,9 @@ pub fn cmd_run(prop: &str, tier: Tier) -> i32 {
 }
 
 pub fn cmd_replay(prop: &str, path: &str, trace: bool) -> i32 {
+    if let Some(c) = crate::custom::registry(prop) {
+        return replay_custom(c, path);
+    }
     let Some(check) = checks::registry(prop) else {
         eprintln!("unknown or unclaimed property {prop}");
         return 2;
